@@ -406,13 +406,17 @@ def _percent_args(fmt, right):
             return []           # mapping keys: not used by the writers
         pos += (m_.group(3) == "*") + (m_.group(4) == "*")
         if pos < len(args):
-            out.append((m_.group(5), args[pos]))
+            prec = m_.group(4)
+            out.append((m_.group(5), args[pos], int(prec) if prec and prec.isdigit() else None))
         pos += 1
     return out
 
 
-def _mentions_element(node, names):
-    """Does the expression use an ELEMENT of one of the descriptor tables (a subscript rooted at it; len(...) does not count)?"""
+def _mentions_element(node, names, elem_names=()):
+    """Does the expression use an ELEMENT of one of the descriptor tables (a subscript rooted at it; len(...) does not count), or a
+    variable known to hold such an element (``elem_names``: the parameter of a helper that is handed one)?"""
+    if elem_names and any(isinstance(n, ast.Name) and n.id in elem_names for n in ast.walk(node)):
+        return True
     skip = set()
     for n in ast.walk(node):
         if isinstance(n, ast.Call) and dotted(n.func) == "len":
@@ -429,7 +433,7 @@ def _mentions_element(node, names):
     return False
 
 
-def _string_guarded(node, pm, names):
+def _string_guarded(node, pm, names, elem_names=()):
     """Is the node only reached when the descriptor element is known not to be a string (else-branch of isinstance(elem, str-type),
     body of a numeric isinstance test, or inside a try that catches TypeError/ValueError)?"""
     child = node
@@ -440,7 +444,7 @@ def _string_guarded(node, pm, names):
             neg = False
             if isinstance(test, ast.UnaryOp) and isinstance(test.op, ast.Not):
                 test, neg = test.operand, True
-            if isinstance(test, ast.Call) and dotted(test.func) == "isinstance" and len(test.args) == 2 and _mentions_element(test.args[0], names):
+            if isinstance(test, ast.Call) and dotted(test.func) == "isinstance" and len(test.args) == 2 and _mentions_element(test.args[0], names, elem_names):
                 tys = [dotted(t) for t in (test.args[1].elts if isinstance(test.args[1], ast.Tuple) else [test.args[1]])]
                 is_str_test = all(t in _STRING_TYPES for t in tys)
                 body = par.body if isinstance(par.body, list) else [par.body]
@@ -451,6 +455,17 @@ def _string_guarded(node, pm, names):
                     return True
                 if not is_str_test and not any(t in _STRING_TYPES for t in tys) and ((in_body and not neg) or (in_else and neg)):
                     return True
+        # an earlier sibling `if isinstance(elem, str): return/continue/raise` leaves only non-strings for what follows
+        for fld in ("body", "orelse", "finalbody"):
+            blk = getattr(par, fld, None)
+            if isinstance(blk, list) and any(child is b for b in blk):
+                for prev in blk[:[i for i, b in enumerate(blk) if b is child][0]]:
+                    if isinstance(prev, ast.If) and not prev.orelse and prev.body and isinstance(prev.body[-1], (ast.Return, ast.Continue, ast.Raise, ast.Break)):
+                        t_ = prev.test
+                        if isinstance(t_, ast.Call) and dotted(t_.func) == "isinstance" and len(t_.args) == 2 and _mentions_element(t_.args[0], names, elem_names):
+                            tys_ = [dotted(t) for t in (t_.args[1].elts if isinstance(t_.args[1], ast.Tuple) else [t_.args[1]])]
+                            if all(t in _STRING_TYPES for t in tys_):
+                                return True
         if isinstance(par, ast.Try) and any(child is b for b in par.body):
             for h in par.handlers:
                 caught = [dotted(t) for t in (h.type.elts if isinstance(h.type, ast.Tuple) else [h.type])] if h.type is not None else ["BaseException"]
@@ -460,22 +475,10 @@ def _string_guarded(node, pm, names):
     return False
 
 
-def check_descriptor_formats(ctx):
-    """Row descriptors (Data.get_axis_descriptions) are date STRINGS for every time-like axis and numbers otherwise; a numeric
-    conversion (%g, %d, float(), '{:g}') of a descriptor element that is not guarded by a string test ends -x time/week/month/year
-    output in an unhandled TypeError."""
-    prog = ctx.prog
-    g = prog.own_method("verif.data.Data.get_axis_descriptions")
-    may_be_str = any(isinstance(n, ast.Call) and isinstance(n.func, ast.Attribute) and n.func.attr in ("strftime", "isoformat", "format") or
-                     (isinstance(n, ast.Call) and dotted(n.func) == "str") for n in ast.walk(g))
-    ctx.ob("C19.7", "verif.data.Data.get_axis_descriptions", True, "descriptor element types: %s" % ("str (formatted dates) or number" if may_be_str else "number"),
-           nontrivial=False)
-    if not may_be_str:
-        ctx.note("C19.7: get_axis_descriptions no longer formats strings; the numeric-format rule has nothing to decide")
-        return
-    users = 0
-    convs = 0
-    # functions that hand the descriptor table on (a helper returning data.get_axis_descriptions(...)) are sources too: fixed point
+def descriptor_conversions(prog):
+    """Every numeric conversion applied to an element of the row-descriptor table (Data.get_axis_descriptions), in the functions that
+    receive the table (directly or through helpers returning it - fixed point) and in local helpers / methods that are handed one
+    element (one level).  -> (users, [(qualname, module, node, what, conversion, precision, guarded)])"""
     sources = {"get_axis_descriptions"}
 
     def tainted_names(f):
@@ -505,36 +508,90 @@ def check_descriptor_formats(ctx):
                         sources.add(f.name)
                         changed = True
                         break
+
+    def conversions(root, names, elem_names, skip_defs=True):
+        sites = []
+        nested = set()
+        if skip_defs:
+            for n in ast.walk(root):
+                if n is not root and isinstance(n, (ast.FunctionDef, ast.Lambda)):
+                    nested.update(id(x) for x in ast.walk(n) if x is not n)
+        for n in ast.walk(root):
+            if id(n) in nested:
+                continue
+            if isinstance(n, ast.BinOp) and isinstance(n.op, ast.Mod) and isinstance(const(n.left), str):
+                for conv, arg, prec in _percent_args(const(n.left), n.right):
+                    if conv in _NUMERIC_CONV and _mentions_element(arg, names, elem_names):
+                        sites.append((n, "%%%s" % conv, conv, prec if prec is not None else (6 if conv in "gGfFeE" else None)))
+            elif isinstance(n, ast.Call) and dotted(n.func) in ("float", "int", "round") and n.args and _mentions_element(n.args[0], names, elem_names):
+                sites.append((n, dotted(n.func) + "()", dotted(n.func), None))
+            elif isinstance(n, ast.FormattedValue) and n.format_spec is not None and _mentions_element(n.value, names, elem_names):
+                spec = "".join(v.value for v in n.format_spec.values if isinstance(v, ast.Constant) and isinstance(v.value, str))
+                if spec and spec[-1] in _NUMERIC_CONV | {"n", "%"}:
+                    mp = re.search(r"\.(\d+)", spec)
+                    sites.append((n, "f-string :%s" % spec, spec[-1], int(mp.group(1)) if mp else (6 if spec[-1] in "gGfFeE" else None)))
+            elif isinstance(n, ast.Call) and isinstance(n.func, ast.Attribute) and n.func.attr == "format" and isinstance(const(n.func.value), str) \
+                    and re.search(r"\{[^}]*:[^}]*[gGfFeEdn%]\}", const(n.func.value)) and any(_mentions_element(a, names, elem_names) for a in n.args):
+                mp = re.search(r"\{[^}]*:[^}]*?\.(\d+)[gGfFeE]\}", const(n.func.value))
+                sites.append((n, "str.format numeric spec", "g", int(mp.group(1)) if mp else 6))
+        return sites
+
+    users = 0
+    out = []
     for qual, m, c, f in prog.all_functions():
         names = tainted_names(f)
         if not names:
             continue
         users += 1
         pm = parent_map(f)
-        sites = []
+        for n, what, conv, prec in conversions(f, names, ()):
+            out.append((qual, m, n, what, conv, prec, _string_guarded(n, pm, names)))
+        # helpers that are handed one element: nested defs of this function and methods of the same class (one level)
+        local = {n.name: n for n in ast.walk(f) if isinstance(n, ast.FunctionDef) and n is not f}
         for n in ast.walk(f):
-            if isinstance(n, ast.BinOp) and isinstance(n.op, ast.Mod) and isinstance(const(n.left), str):
-                for conv, arg in _percent_args(const(n.left), n.right):
-                    if conv in _NUMERIC_CONV and _mentions_element(arg, names):
-                        sites.append((n, "%%%s" % conv))
-            elif isinstance(n, ast.Call) and dotted(n.func) in ("float", "int", "round") and n.args and _mentions_element(n.args[0], names):
-                sites.append((n, dotted(n.func) + "()"))
-            elif isinstance(n, ast.FormattedValue) and n.format_spec is not None and _mentions_element(n.value, names):
-                spec = "".join(v.value for v in n.format_spec.values if isinstance(v, ast.Constant) and isinstance(v.value, str))
-                if spec and spec[-1] in _NUMERIC_CONV | {"n", "%"}:
-                    sites.append((n, "f-string :%s" % spec))
-            elif isinstance(n, ast.Call) and isinstance(n.func, ast.Attribute) and n.func.attr == "format" and isinstance(const(n.func.value), str) \
-                    and re.search(r"\{[^}]*:[^}]*[gGfFeEdn%]\}", const(n.func.value)) and any(_mentions_element(a, names) for a in n.args):
-                sites.append((n, "str.format numeric spec"))
-        for n, what in sites:
-            convs += 1
-            ok = _string_guarded(n, pm, names)
-            ctx.ob("C19.7", qual, ok, "numeric conversion %s of a row descriptor is reached only for non-string descriptors" % what, loc=prog.loc(m, n),
-                   msg="%s is applied to an element of %s, which holds formatted date strings for every time-like axis (Data.get_axis_descriptions): "
-                       "-x time/day/week/month/year output ends in an unhandled TypeError" % (what, "/".join(sorted(names))),
-                   sample={"rule": "C19.7", "function": qual, "conversion": what, "guarded": ok})
+            if not (isinstance(n, ast.Call) and n.args):
+                continue
+            callee = None
+            if isinstance(n.func, ast.Name) and n.func.id in local:
+                callee, skip = local[n.func.id], 0
+            elif isinstance(n.func, ast.Attribute) and dotted(n.func.value) == "self" and c is not None and n.func.attr in c.methods:
+                callee, skip = c.methods[n.func.attr], 1
+            if callee is None:
+                continue
+            params = [a.arg for a in callee.args.args][skip:]
+            elems = set(p_ for p_, a in zip(params, n.args) if _mentions_element(a, names))
+            if not elems:
+                continue
+            cpm = parent_map(callee)
+            caller_guard = _string_guarded(n, pm, names)
+            for n2, what, conv, prec in conversions(callee, (), elems, skip_defs=False):
+                out.append((qual + " -> " + callee.name, m, n2, what, conv, prec, caller_guard or _string_guarded(n2, cpm, (), elems)))
+    return users, out
+
+
+def check_descriptor_formats(ctx):
+    """Row descriptors (Data.get_axis_descriptions) are date STRINGS for every time-like axis and numbers otherwise; a numeric
+    conversion (%g, %d, float(), '{:g}') of a descriptor element that is not guarded by a string test ends -x time/week/month/year
+    output in an unhandled TypeError."""
+    prog = ctx.prog
+    g = prog.own_method("verif.data.Data.get_axis_descriptions")
+    may_be_str = any(isinstance(n, ast.Call) and isinstance(n.func, ast.Attribute) and n.func.attr in ("strftime", "isoformat", "format") or
+                     (isinstance(n, ast.Call) and dotted(n.func) == "str") for n in ast.walk(g))
+    ctx.ob("C19.7", "verif.data.Data.get_axis_descriptions", True, "descriptor element types: %s" % ("str (formatted dates) or number" if may_be_str else "number"),
+           nontrivial=False)
+    if not may_be_str:
+        ctx.note("C19.7: get_axis_descriptions no longer formats strings; the numeric-format rule has nothing to decide")
+        return
+    users, found = descriptor_conversions(prog)
+    convs = 0
+    for qual, m, n, what, conv, prec, guarded in found:
+        convs += 1
+        ctx.ob("C19.7", qual, guarded, "numeric conversion %s of a row descriptor is reached only for non-string descriptors" % what, loc=prog.loc(m, n),
+               msg="%s is applied to an element of the row-descriptor table, which holds formatted date strings for every time-like axis "
+                   "(Data.get_axis_descriptions): -x time/day/week/month/year output ends in an unhandled TypeError" % what,
+               sample={"rule": "C19.7", "function": qual, "conversion": what, "guarded": guarded})
     ctx.need(users >= 2, "fewer than 2 users of get_axis_descriptions found (confirmed: Output.text, Output.csv)")
-    ctx.control("C19.7", [c_ for c_, _a in _percent_args("%-*g| %s %d%%", ast.parse("(a, b, c, d)").body[0].value)] == ["g", "s", "d"],
+    ctx.control("C19.7", [c_ for c_, _a, _p in _percent_args("%-*g| %s %d%%", ast.parse("(a, b, c, d)").body[0].value)] == ["g", "s", "d"],
                 "%-format directives are paired with their arguments ('*' consumes one)")
     ctx.sample({"rule": "C19.7", "functions_using_descriptors": users, "numeric_conversions": convs})
 
